@@ -7,5 +7,43 @@ pub mod stdspec {
     // `unsafe { v.set_len(n) }`: length only, contents arbitrary
     pub assume_specification<T, A: core::alloc::Allocator>[Vec::<T, A>::set_len](v: &mut Vec<T, A>, n: usize)
         ensures final(v)@.len() == n;
+
+    // ---- casts (rule R5): Verus has no int<->float `as`
+    pub uninterp spec fn f_of_int(n: int) -> f64;
+    pub uninterp spec fn f_to_int(x: f64) -> int;       // value of `x as <int type>` when it fits
+    pub trait IntLike: Copy + Sized {
+        spec fn as_int_(self) -> int;
+        fn to_f64_(self) -> (r: f64) ensures r == f_of_int(self.as_int_());
+    }
+    impl IntLike for usize { open spec fn as_int_(self) -> int { self as int }
+        #[verifier::external_body] fn to_f64_(self) -> (r: f64) { self as f64 } }
+    impl IntLike for u64 { open spec fn as_int_(self) -> int { self as int }
+        #[verifier::external_body] fn to_f64_(self) -> (r: f64) { self as f64 } }
+    impl IntLike for u32 { open spec fn as_int_(self) -> int { self as int }
+        #[verifier::external_body] fn to_f64_(self) -> (r: f64) { self as f64 } }
+    impl IntLike for i32 { open spec fn as_int_(self) -> int { self as int }
+        #[verifier::external_body] fn to_f64_(self) -> (r: f64) { self as f64 } }
+    impl IntLike for i64 { open spec fn as_int_(self) -> int { self as int }
+        #[verifier::external_body] fn to_f64_(self) -> (r: f64) { self as f64 } }
+    impl IntLike for isize { open spec fn as_int_(self) -> int { self as int }
+        #[verifier::external_body] fn to_f64_(self) -> (r: f64) { self as f64 } }
+    pub fn cast_f64<T: IntLike>(x: T) -> (r: f64) ensures r == f_of_int(x.as_int_()) { x.to_f64_() }
+    #[verifier::external_body]
+    pub fn cast_usize_f(x: f64) -> (r: usize) ensures 0 <= f_to_int(x) <= usize::MAX ==> r == f_to_int(x) { x as usize }
+    #[verifier::external_body]
+    pub fn cast_i32_f(x: f64) -> (r: i32) ensures i32::MIN <= f_to_int(x) <= i32::MAX ==> r == f_to_int(x) { x as i32 }
+    #[verifier::external_body]
+    pub fn cast_i64_f(x: f64) -> (r: i64) ensures i64::MIN <= f_to_int(x) <= i64::MAX ==> r == f_to_int(x) { x as i64 }
+    #[verifier::external_body]
+    pub fn cast_u64_f(x: f64) -> (r: u64) ensures 0 <= f_to_int(x) <= u64::MAX ==> r == f_to_int(x) { x as u64 }
+
+    // ---- std's reflexive `impl<T> From<T> for T` seen through Into (TRUSTED)
+    #[verifier::external_body]
+    pub broadcast proof fn ax_vec_into_refl(v: Vec<f64>)
+        ensures #[trigger] <Vec<f64> as vstd::std_specs::convert::IntoSpec<Vec<f64>>>::into_spec(v) == v {}
+    #[verifier::external_body]
+    pub broadcast proof fn ax_vec_into_obeys()
+        ensures #[trigger] <Vec<f64> as vstd::std_specs::convert::IntoSpec<Vec<f64>>>::obeys_into_spec() {}
+    pub broadcast group ax_vec_from_refl { ax_vec_into_refl, ax_vec_into_obeys }
     }
 }
